@@ -46,7 +46,8 @@ def run(pid, tier, seed, t0):
                                                  per_episode=st.get('per_episode', 3000), extra=st.get('extra'))
                 info['edges_replayed'] = nedges
             else:
-                n = core.dump_cases(logp, st['comp'], st['name'] + '-', cases, limit=st.get('limit', {}).get(tier))
+                n = core.dump_cases(logp, st['comp'], st['name'] + '-', cases, limit=st.get('limit', {}).get(tier),
+                                    extra=st.get('extra'))
             if not os.environ.get('VERIF_KEEP'):
                 os.remove(logp)
             cov['states'] += s['distinct']
